@@ -35,11 +35,15 @@ PlanPairs == [MA |-> {<<"x", "none">>, <<"x", "diff">>, <<"y", "none">>, <<"y", 
               MC |-> {<<"r", "diff_log">>, <<"r", "log">>, <<"p", "log">>},
               MD |-> {<<"x", "none">>, <<"y", "diff">>},
               ME |-> {<<"x", "diff">>, <<"y", "none">>}]
-Masks == {{1}, {2, 3}, {1, 2, 3}}
+\* thorough tier: Deep <- DeepOn in the cfg (more exogenized period patterns, pairs of plan entries over more masks)
+Deep == FALSE
+DeepOn == TRUE
+Masks == {{1}, {2, 3}, {1, 2, 3}} \cup (IF Deep THEN {{2}, {3}, {1, 3}} ELSE {})
 \* a plan entry: <<lhs, plan transform, when_data, periods>>
 Entries(m) == {<<pp[1], pp[2], wd, mask>> : pp \in PlanPairs[m], wd \in BOOLEAN, mask \in Masks}
 PlanSets(m) == {{}} \cup {{e} : e \in Entries(m)}
                  \cup {{e1, e2} : e1 \in {e \in Entries(m) : e[4] = {2, 3} /\ ~e[3]}, e2 \in {e \in Entries(m) : e[4] = {1, 2, 3} /\ e[3]}}
+                 \cup (IF Deep THEN {{e1, e2} : e1 \in {e \in Entries(m) : e[4] = {1, 3} /\ e[3]}, e2 \in {e \in Entries(m) : e[4] = {2} /\ ~e[3]}} ELSE {})
 Scenarios == UNION {{[model |-> m, order |-> o, resp |-> rp, plan |-> ps, prep |-> pr] : pr \in {"as_written", "reordered"},
                         o \in {"dates_equations", "equations_dates"}, rp \in {0, 1}, ps \in {p \in PlanSets(m) :
                             \A e1, e2 \in p : e1 # e2 => e1[1] # e2[1]}} : m \in ModelIds}
